@@ -125,7 +125,10 @@ class C03(GenCheck):
             mid += 1
             body = [["set", ["v", m], ["c", 1]]]
             if depth > 0 and rng.random() < 0.4:
-                body.append(block(depth - 1))
+                inner = block(depth - 1)
+                if rng.random() < 0.35:
+                    inner[2].append(["exit", 2])       # the nested block ends the program: nothing after it may run
+                body.append(inner)
             has_else = rng.random() < 0.5
             els = [["set", ["v", m], ["c", 2]]] if has_else else None
             if els is not None and depth > 0 and rng.random() < 0.3:
@@ -173,16 +176,25 @@ class C03(GenCheck):
 
     def reached(self, stmts, o, out):
         """the with-blocks that were reached according to the observed markers, in program order"""
+        self._reached(stmts, o, out)
+        return out
+
+    def _reached(self, stmts, o, out):
+        """returns True when an exit statement was executed (nothing after it is reached)"""
         for s in stmts:
+            if s[0] == "exit":
+                return True
             if s[0] != "if":
                 continue
             m = o[s[2][0][1][1]]
             out.append((s[1], m))
             if m == 1:
-                self.reached(s[2], o, out)
+                if self._reached(s[2], o, out):
+                    return True
             elif m == 2 and s[3]:
-                self.reached(s[3], o, out)
-        return out
+                if self._reached(s[3], o, out):
+                    return True
+        return False
 
     def model_term(self, case):
         o = case.get("_o")
@@ -240,20 +252,26 @@ class C03(GenCheck):
         return t, ok
 
     def walk(self, stmts, env, exp, ok_all):
+        """returns True when the program has exited"""
         for s in stmts:
             if s[0] == "set":
                 exp[s[1][1]] = s[2][1]
+            elif s[0] == "exit":
+                return True
             elif s[0] == "if":
                 t, ok = self.truth(s[1], env)
                 if not ok:
                     ok_all[0] = False
-                    return
+                    return True
                 if t:
-                    self.walk(s[2], env, exp, ok_all)
+                    if self.walk(s[2], env, exp, ok_all):
+                        return True
                 elif s[3] is not None:
-                    self.walk(s[3], env, exp, ok_all)
+                    if self.walk(s[3], env, exp, ok_all):
+                        return True
             if not ok_all[0]:
-                return
+                return True
+        return False
 
     def holds(self, case, o):
         if isinstance(o, Err):
@@ -281,7 +299,7 @@ class C03(GenCheck):
     def rule(self):
         return ("1-3 sequenced with-blocks, nested up to depth 2, with and without Else, conditions = trees (depth <= 2) of & | ~ over comparison atoms (all six "
                 "operators, variables of all formats / registers / constants placed next to the left value so that both outcomes occur), bit tests x & mask and "
-                "plain truth tests; every block sets its own marker, a final marker checks that execution continues; checked when all compared values fit the narrowest width")
+                "plain truth tests; every block sets its own marker, a third of the nested blocks end the program with exit(), a final marker checks that execution continues otherwise; checked when all compared values fit the narrowest width")
 
     def distribution(self, cases, observed):
         d = {"blocks": 0, "with_else": 0, "atoms": 0, "outside_precondition": 0}
